@@ -252,11 +252,20 @@ Section Batched.
     | Delete k => if N.eqb k 0 then (s, OErr) else benqueue s (k, 0, [])
     | Batch b => if is_nil b || has_empty_key (map bop_key b) then (s, OErr) else benqueue_all s b
     | Get _ | GetTags _ | GetBulk _ | Query _ => bread s o
-    | Flush => bflush s
-    | Reopen =>
-        (* store.Close: flush, then close the underlying store; a store opened afterwards starts with an empty batch *)
+    | Flush =>
+        (* Flush hands the queue to the store below and flushes that store too (fix: commit; before, the store below
+           was not flushed -- not observable through this store, only when the wrapper objects are dropped) *)
         let '(s1, y) := bflush s in
-        if is_done y then let '(m2, r) := step P (fst s1) Reopen in ((m2, []), if is_done r then ODone else err_of r)
+        if is_done y then let '(m2, r) := step P (fst s1) Flush in ((m2, snd s1), if is_done r then ODone else err_of r)
+        else (s1, y)
+    | Reopen =>
+        (* store.Close: Flush (as above), then close the underlying store; a store opened afterwards starts with an
+           empty batch *)
+        let '(s1, y) := bflush s in
+        if is_done y then
+          let '(m2, r) := step P (fst s1) Flush in
+          if is_done r then let '(m3, r3) := step P m2 Reopen in ((m3, []), if is_done r3 then ODone else err_of r3)
+          else ((m2, []), err_of r)
         else ((fst s1, []), y)
     end.
   Definition batched : prov := {| St := bstate; init := (init P, []); step := batched_step |}.
